@@ -1,4 +1,4 @@
-#include "/repo/src/transmission/bidib_transmission_node_states.c"
+#include "src/transmission/bidib_transmission_node_states.c"
 #include "vx.h"
 #include <stdio.h>
 static int cmp_state(const void *a, const void *b) {
